@@ -76,6 +76,12 @@ macro_rules! function {
                 args: &[Value],
             ) -> Result<Type, Error>
             {
+                const ARITY: usize = [$(stringify!($aname)),+].len();
+                if args.len() != ARITY {
+                    bail!("{} expects {} argument(s), {} provided",
+                        stringify!($name), ARITY, args.len()
+                    )
+                }
                 let mut targs : Vec<Type> = Vec::with_capacity(args.len());
                 for x in args {
                     let t = x.real_type_of($ctx.clone())?;
@@ -98,6 +104,12 @@ macro_rules! function {
                 args: &[Value],
             ) -> Result<Value, Error>
             {
+                const ARITY: usize = [$(stringify!($aname)),+].len();
+                if args.len() != ARITY {
+                    bail!("{} expects {} argument(s), {} provided",
+                        stringify!($name), ARITY, args.len()
+                    )
+                }
                 $crate::args!(args, ctx=$ctx, opts=$arg_opts, $($aname),+);
                 $body
             }
